@@ -35,7 +35,7 @@ import (
 //
 //	h2up <method> <frame+frame…> => <r1> <r2> <same|new|none>
 //	frames: D / De DATA (3 bytes) without / with END_STREAM; R<code> RST_STREAM; H / He HEADERS :status 200 without / with
-//	        END_STREAM; W<inc> WINDOW_UPDATE on the stream; P PING; X DATA on the stream after it completed; C the peer
+//	        END_STREAM; Hbad HEADERS with an upper-case field name; W<inc> WINDOW_UPDATE on the stream (W0 is a stream error); P PING; X DATA on the stream after it completed; C the peer
 //	        closes the connection
 //	r:      resp | reset:<reason> | hang | nostream:<pool failure>
 
@@ -283,6 +283,8 @@ func h2upCases(c *hx.Ctx) {
 		{"GET", "H+R8"}, {"GET", "H+D+R2"}, {"POST", "H+R1"}, // partial response, then reset
 		{"GET", "P+D"}, {"GET", "W5+R8"}, {"GET", "P+R3"},
 		{"GET", "He+X"}, {"GET", "H+De+X"}, // DATA on a stream that has completed
+		// stream errors raised by the framer itself (the frame must be consumed) and RST_STREAM with NO_ERROR
+		{"GET", "Hbad"}, {"POST", "Hbad"}, {"GET", "W0"}, {"GET", "H+W0"}, {"HEAD", "P+W0"}, {"GET", "R0"}, {"GET", "H+R0"}, {"POST", "R0"},
 		{"GET", "C"}, {"GET", "H+C"}, {"HEAD", "P+C"}, // connection closed under the request: Reset holds the mutex over ResetStream
 	}
 	if len(c.Args) >= 3 && c.Args[2] == "probe" {
@@ -311,7 +313,7 @@ func h2upCases(c *hx.Ctx) {
 	for _, s := range base {
 		run(s)
 	}
-	codes := []int{1, 2, 3, 4, 5, 6, 7, 8, 9, 10, 11, 12, 13, 255}
+	codes := []int{0, 1, 2, 3, 4, 5, 6, 7, 8, 9, 10, 11, 12, 13, 255}
 	for i := 0; i < c.N(12, 150); i++ {
 		m := c.Rng.PickS([]string{"GET", "GET", "POST", "HEAD"})
 		var fr []string
@@ -320,7 +322,7 @@ func h2upCases(c *hx.Ctx) {
 		}
 		switch c.Rng.Intn(6) {
 		case 0:
-			fr = append(fr, c.Rng.PickS([]string{"D", "De"}))
+			fr = append(fr, c.Rng.PickS([]string{"D", "De", "Hbad", "W0"}))
 		case 1:
 			fr = append(fr, fmt.Sprintf("R%d", c.Rng.Pick(codes)))
 		case 2:
